@@ -108,7 +108,7 @@ def rule_quant(E, R):
     fa = "ast::logical_expr::QuantifierOp::reduce_lhs_array"
     ha = E.hir(fa)
     if ha:
-        t = tail(ha["body"])
+        t = fn_result(ha)
         ok = t.get("k") == "MethodCall" and t["m"] == "reduce_bool_iter" and local_name(t["recv"]) == "self"
         if ok:
             root, ch = chain(t["args"][0])
@@ -330,7 +330,7 @@ def rule_absent(E, R):
         R.check(ok, rule, fn, "absent field / function result -> TypedArray::default() (empty) in both branches", str(rets), h["span"])
         hd = E.hirs(r"^<lhs_types::array::TypedArray<V> as core::default::Default>::default$")
         if len(hd) == 1:
-            R.check(norm(tail(hd[0]["body"]).get("callee", "")) == "lhs_types::array::TypedArray::new", rule, norm(hd[0]["path"]),
+            R.check(norm(fn_result(hd[0]).get("callee", "")) == "lhs_types::array::TypedArray::new", rule, norm(hd[0]["path"]),
                     "TypedArray::default() is the empty array", where=hd[0]["span"])
         fi = [x for x in exprs(h["body"], "Call") if norm(x.get("callee", "")).endswith("FromIterator::from_iter")]
         good = len(fi) == 2
@@ -378,7 +378,7 @@ def rule_absent(E, R):
     for fn3 in ("types::LhsValue::get_nested", "types::LhsValue::extract_nested"):
         hh = E.hir(fn3)
         if hh:
-            t = tail(hh["body"])
+            t = fn_result(hh)
             root, ch = chain(t)
             ok = is_param(root, hh, 1) and [x["m"] for x in ch] == ["iter", "try_fold"] and local_name(ch[1]["args"][0]) == "self"
             if not ok:
